@@ -37,6 +37,16 @@ def check_domain(p, folder, fn: FuncInfo, var: str, env=None, depth=0) -> Domain
     """Which integers does fn accept for parameter `var` (other parameters
     bound to constants in env)?"""
     env = dict(env or {})
+    if fn.cls is not None:
+        sn = astq.self_name(fn)
+        if sn:
+            for k in p.mro(fn.cls):
+                for an, av in k.attrs.items():
+                    key = f'{sn}.{an}'
+                    if key not in env:
+                        v = folder.try_eval(av, {}, k.module)
+                        if v is not UNKNOWN:
+                            env[key] = v
     res = DomainResult()
     paths = enumerate_paths(fn.node)
     res.paths = len(paths)
